@@ -432,4 +432,12 @@ func init() {
 		Old:    "\t\t\treturn typeFromLabel.Type.inferModality(labelledTypesEnv, usedLabels)",
 		New:    "\t\t\treturn typeFromLabel.Type.Modality()",
 		Expect: "infers-the-definition"})
+	addFixture(Fixture{Name: "np-wait-continues-polarized", Rule: "R-FAMILY-CONSISTENT", File: "process/transition_np.go",
+		Old:    "\t\tprocess.finishedRule(CLS, \"[wait, client]\", \"c\", re)\n\t\tprocess.transitionLoopNP(re)",
+		New:    "\t\tprocess.finishedRule(CLS, \"[wait, client]\", \"c\", re)\n\t\tprocess.transitionLoop(re)",
+		Expect: "TransitionNP:stays-in-its-interpreter"})
+	addFixture(Fixture{Name: "stop-request-may-be-dropped", Rule: "R-MONITOR-CONFINED", File: "process/monitor.go",
+		Old:    "func (m *Monitor) stopMonitor() {\n\tm.stopMonitorChan <- true\n}",
+		New:    "func (m *Monitor) stopMonitor() {\n\tselect {\n\tcase m.stopMonitorChan <- true:\n\tdefault:\n\t}\n}",
+		Expect: "outside-access-after-handshake"})
 }
